@@ -5,11 +5,13 @@
 (*   {"ev":"reset","b":n,"q":[..]}         a new behaviour starts; q = the *)
 (*                                         quirks it is to be run with     *)
 (*   {"ev":"step","b":n,"s":..,"k":..,"id":..,"u":..,"v":..,              *)
-(*    "chk":0|1,"ct":0|1,"out":..,"res":..,"cnt":..,"pk":..,"tbl":..}     *)
+(*    "chk":0|1,"ct":0|1,"cc":0|1,"out":..,"res":..,"cnt":..,"pk":..,     *)
+(*    "tbl":..}                                                            *)
 (*                                         session s issues the statement; *)
 (*                                         with chk=1 the fields after it  *)
 (*                                         are what the real engine did    *)
-(*                                         (ct=1: tbl was scanned)         *)
+(*                                         (ct=1: tbl was scanned, cc=1:   *)
+(*                                         count and key were reported)    *)
 (*   {"ev":"scan","b":n,"cmp":c,"rows":[[id,u,v],..]}  a full scan of the *)
 (*                                         real table in a fresh read:     *)
 (*                                         c=0 the rows must satisfy the   *)
@@ -58,8 +60,8 @@ Applicable(s, m) ==
 Differs(e, o) ==
   IF e.out # o.out THEN "out"
   ELSE IF e.out = "ok" /\ e.k \in QryKinds /\ e.res # o.res THEN "res"
-  ELSE IF e.out = "ok" /\ e.k \in DmlKinds /\ e.cnt # o.cnt THEN "cnt"
-  ELSE IF e.out = "ok" /\ e.k = "insA" /\ e.pk # o.pk THEN "pk"
+  ELSE IF e.cc = 1 /\ e.out = "ok" /\ e.k \in DmlKinds /\ e.cnt # o.cnt THEN "cnt"
+  ELSE IF e.cc = 1 /\ e.out = "ok" /\ e.k = "insA" /\ e.pk # o.pk THEN "pk"
   ELSE IF e.ct = 1 /\ e.tbl # o.tbl THEN "tbl"
   ELSE ""
 
